@@ -221,17 +221,25 @@ def rule_c12_r1(model: Model) -> RuleResult:
         r.analysed.add(f.qualname)
         found: t.Dict[str, t.Tuple[str, str]] = {}
         gates: t.Dict[str, t.Set[str]] = {}
+        # the tag variable is the one the tag map is looked up with; the body variable is what the variant receives
+        tag_var = body_var = None
         for n in cfg.live_nodes():
-            if n.kind == 'stmt' and isinstance(n.ast, ast.Assign):
-                names = [x.id for tg in n.ast.targets for x in ast.walk(tg) if isinstance(x, ast.Name)]
-                if 'tag' in names or any(nm in names for nm in ('tag',)):
-                    lay = layout_of(cfg, nz, n)
-                    rd = cfg.reaching()
-                    tagf = [inner for d in rd.defs if d.node is n and d.name == 'tag' for inner in [nz._def_form(d, 0)]]
-                    body = [inner for d in rd.defs if d.node is n and d.name != 'tag' for inner in [nz._def_form(d, 0)]]
-                    if tagf:
-                        prev = found.get(lay, ('', ''))
-                        found[lay] = (tagf[0], body[0] if body else prev[1])
+            for root in node_exprs(n):
+                for sub in walk_no_nested(root):
+                    if isinstance(sub, ast.Subscript) and unparse(sub.value) == 'self.tag_map' and isinstance(sub.slice, ast.Name):
+                        tag_var = sub.slice.id
+                    if isinstance(sub, ast.Call) and isinstance(sub.func, ast.Attribute) and sub.func.attr in ('try_convert', 'collect_errors') \
+                            and unparse(sub.func.value).startswith('self.converters[') and sub.args and isinstance(sub.args[0], ast.Name):
+                        body_var = sub.args[0].id
+        if tag_var is None:
+            raise AnalysisError(f"{f.loc()}: {mname}: the tag-map lookup `self.tag_map[<tag>]` was not found")
+        rd = cfg.reaching()
+        for d in rd.defs:
+            if d.name == tag_var and d.kind in ('assign', 'walrus') and d.node.id in cfg.reachable():
+                lay = layout_of(cfg, nz, d.node)
+                bodyf = [nz._def_form(b, 0) for b in rd.defs if b.node is d.node and b.name == body_var and b is not d]
+                prev = found.get(lay, ('', ''))
+                found[lay] = (nz._def_form(d, 0), bodyf[0] if bodyf else prev[1])
         for lay, (wt, wb) in expected_r.items():
             r.instances += 1
             got = found.get(lay)
